@@ -425,6 +425,73 @@ fn multistep_suite(run: &mut Run, rng: &mut Rng, deep: bool) {
     }
 }
 
+/// centroids beyond 65,536 and 131,072 samples: step 1 on heavy points, then further steps on the
+/// populous centroids, with the f64 from-scratch oracle at every step; and `density` probed directly
+/// on histograms whose mass is around 2^16, 2^24 and 2^32 against the exact count / mass
+fn populous_suite(run: &mut Run, rng: &mut Rng, deep: bool) {
+    let river: Vec<Abstraction> = (0..=100).map(|i| Abstraction::from((Street::Rive, i))).collect();
+    // ---- density probes
+    let probes: Vec<(usize, usize)> = vec![
+        (1, 46), (46, 46), (65_535, 65_536), (1, 65_536), (40_000, 65_537), (65_536, 131_072), (100_000, 131_073), (70_000, 200_000),
+        (1, 16_777_216), (16_777_217, 33_554_434), (3, 4_294_967_296), (4_294_967_297, 8_589_934_594), (123_456_789, 9_876_543_210),
+    ];
+    for (pi, &(c, m)) in probes.iter().enumerate() {
+        let (a, b) = (river[(pi * 7) % 101], river[(pi * 7 + 50) % 101]);
+        let mut h = Histogram::default();
+        h.set(a, c);
+        if m > c { h.set(b, m - c); }
+        for (key, cnt) in [(a, c), (b, m - c), (river[(pi * 7 + 13) % 101], 0usize)] {
+            if key == b && m == c { continue; }
+            let got = h.density(&key);
+            run.evaluations += 1;
+            run.line(&format!("dens {} {}", hist_str(&h), code(&key)), &fl(got));
+            run.spec_checked += 1;
+            let want = cnt as f64 / m as f64;
+            if (got as f64 - want).abs() > 1e-6 * want + 1e-12 {
+                run.fail("density-not-count-over-mass", &format!("count {cnt} of mass {m}"), &format!("{want}"), &format!("{got}"));
+            }
+        }
+        run.count("density-probe");
+    }
+    // ---- populous layers
+    let heavy = |rng: &mut Rng, center: usize, spread: usize, samples: usize| -> Histogram {
+        // `samples` draws around `center`, via Histogram::from(Vec<Abstraction>) and absorb
+        let mut h = gen_hist(rng, &river, center, spread, samples.min(4000));
+        let mut left = samples.saturating_sub(4000);
+        while left > 0 {
+            let part = gen_hist(rng, &river, center, spread, left.min(4000));
+            h.absorb(&part);
+            left = left.saturating_sub(4000);
+        }
+        h
+    };
+    for r in 0..(if deep { 4 } else { 2 }) {
+        let kc = 3;
+        let n = 40 + 10 * r;
+        let centers = [15usize, 50, 85];
+        let per_point = if r % 2 == 0 { 6_000 } else { 12_000 }; // 40 * 6000 / 3 = 80k, 50 * 12000 / 3 = 200k per centroid
+        let points: Vec<Histogram> = (0..n).map(|i| {
+            let c = (centers[i % 3] as i64 + rng.range(-8, 8)).clamp(0, 100) as usize;
+            let extra = rng.below(500) as usize;
+            heavy(rng, c, 6, per_point + extra)
+        }).collect();
+        let mut current: Vec<Histogram> = (0..kc).map(|j| points[j].clone()).collect();
+        for t in 0..3 {
+            let layer = Layer::verif_new(Street::Turn, Metric::default(), points.clone(), current.clone());
+            let biggest = current.iter().map(|c| c.verif_mass()).max().unwrap_or(0);
+            run.count(&format!("populous-step-largest-centroid={}", if biggest >= 131_072 { ">=131072" } else if biggest >= 65_536 { ">=65536" } else { "<65536" }));
+            let case = Case {
+                street: Street::Turn, metric_raw: BTreeMap::new(), points: points.clone(), kmeans: current.clone(),
+                tag: format!("Turn+populous-run{r}-step{t}"), vdist: true,
+            };
+            match exercise(run, &case, &layer) {
+                Some(cs) if cs.iter().take(kc).all(|c| c.verif_mass() > 0) => current = cs.into_iter().take(kc).collect(),
+                _ => break,
+            }
+        }
+    }
+}
+
 fn main() {
     let a = args();
     let mut rng = Rng::new(a.seed);
@@ -580,8 +647,9 @@ fn main() {
         exercise(&mut run, case, &layer);
     }
     multistep_suite(&mut run, &mut rng, deep);
+    populous_suite(&mut run, &mut rng, deep);
     run.rule = format!(
-        "multi-step runs on one thread (re-seeded and Lloyd, >= 5 steps, centroids of every step at the addresses of the step before, equal masses and support sizes) with the nearest-centroid oracle recomputed from scratch in f64 at every step; near-tie layers (point-mass point, point-mass centroid, spread centroid within 1 %); {} synthetic layers: Turn (points = equity histograms over the 101 river buckets, emd = Equity::variation, 1..150 centroids incl. 144), Flop and Pref (points over 24 learned abstractions with a line metric, emd = Sinkhorn, 1..16 centroids); 10..500 points with duplicated points, duplicated centroids (ties), an empty centroid (NaN distance), more centroids than street.k(); per layer every point's neighborhood, one next(), lookup() (Flop/Turn, zipped with the real IsomorphismIterator) and metric(); pair keys of the real cluster counts 169/128/144 exhaustively. distinct = distinct op lines",
+        "populous layers (centroids beyond 65,536 and 131,072 samples, 3 steps, f64 oracle at every step) and density probes at masses around 2^16, 2^24, 2^32; multi-step runs on one thread (re-seeded and Lloyd, >= 5 steps, centroids of every step at the addresses of the step before, equal masses and support sizes) with the nearest-centroid oracle recomputed from scratch in f64 at every step; near-tie layers (point-mass point, point-mass centroid, spread centroid within 1 %); {} synthetic layers: Turn (points = equity histograms over the 101 river buckets, emd = Equity::variation, 1..150 centroids incl. 144), Flop and Pref (points over 24 learned abstractions with a line metric, emd = Sinkhorn, 1..16 centroids); 10..500 points with duplicated points, duplicated centroids (ties), an empty centroid (NaN distance), more centroids than street.k(); per layer every point's neighborhood, one next(), lookup() (Flop/Turn, zipped with the real IsomorphismIterator) and metric(); pair keys of the real cluster counts 169/128/144 exhaustively. distinct = distinct op lines",
         cases.len());
     run.finish();
 }
